@@ -86,6 +86,7 @@ func buildFamily(family, tier string, seed int64) []*Scenario {
 		out = append(out, g.corpusDoc("s")...)
 		out = append(out, g.famImported("s")...)
 		out = append(out, g.famGrouped("s")...)
+		out = append(out, g.famMultiName("s", n(6, 30))...)
 		out = append(out, g.corpusRepeat("s")...)
 		out = append(out, g.famSpelled("ss", []string{"gt", "minlength", "minitems", "lte"}, []*TypeX{basicT("int", "Int"), stringT, collTypes[0]})...)
 	case "c08":
@@ -96,6 +97,7 @@ func buildFamily(family, tier string, seed int64) []*Scenario {
 		out = append(out, g.famWide("rw")...)
 		out = append(out, g.famImported("r")...)
 		out = append(out, g.famNames("r", []string{"required", "minlength", "enum"})...)
+		out = append(out, g.famMultiName("r", n(6, 30))...)
 	case "random":
 		out = g.famRandom("r", n(24, 120), 8)
 	case "all":
